@@ -15,6 +15,7 @@ from collections import Counter
 
 from harness import c03_lib as L
 from harness import c03_run as R
+from harness import c03_streams as S
 from harness import core
 
 PROP_MODULES = ["OV.Props.C03"]
@@ -25,7 +26,17 @@ def replay_case(run, body):
     case = body["case"]
     m = R.unb64(case["model_b64"])
     api, opts = case.get("api", "optimize"), case.get("opts", {})
-    d = R.judge_semantics(m, api, opts, R.three_feeds(m, run.rng))
+    if case.get("sequence") and case.get("kind"):
+        # evaluator state: fold the same kind of node under the other opsets first, newest first, in this process
+        for v in sorted(set([21, 18, 13, 11] + list(case["sequence"])), reverse=True):
+            try:
+                R.apply_api("fold_constants", S.versioned_model(v, case["kind"]), {})
+            except Exception:
+                pass
+    feeds = R.three_feeds(m, run.rng)
+    if case.get("override"):
+        feeds = [dict(f, **{k: __import__("numpy").array(v) for k, v in case["override"].items()}) for f in feeds] + feeds
+    d = R.judge_semantics(m, api, opts, feeds)
     print(f"REPLAY {api} {opts}: {d}")
     if d:
         run.violation(case, f"replayed case still fails: {d}")
@@ -112,6 +123,25 @@ def main(run: core.Run) -> None:
         if run.budget_s and run.elapsed() > run.budget_s:
             break
 
+    # ---- regions outside the random-DAG tie: functions with reference attributes, evaluator state across models of
+    #      different opsets, node-level shape inference with overridable shape operands
+    extra = (S.function_stream(run, drv, stats, hist, run.size(16, 64)) + S.opset_history_stream(run, stats)
+             + S.shape_override_stream(run, stats, run.size(10, 40)))
+    for kind, desc, detail in extra:
+        if kind == "semantic":
+            sem_failures.append((R.unb64(desc["model_b64"]), {"tags": [str(desc.get("meta") or desc.get("kind"))], **{k: v for k, v in desc.items() if k in ("sequence", "override")}},
+                                 desc["api"], desc["opts"], detail.split(": ", 1)[-1] if False else detail))
+        elif kind == "tie":
+            tie_problems.append(("tie", {"model_b64": desc["model_b64"], "in_limit": 8192, "out_limit": 262144, "should_fold": "N",
+                                         "tags": [str(desc.get("meta"))]}, detail))
+
+    if stats["known_C03-D2_in_stream"]:
+        run.known("C03-D2", "fold_constants / optimize(inline=False) on a function body with a reference attribute "
+                  f"(ReduceSum<keepdims=@k>, Shape<start=@s>) change the result at {stats['known_C03-D2_in_stream']} call sites of the function stream")
+    if stats["known_C03-D3_in_stream"]:
+        run.known("C03-D3", "Softmax<axis=1>(const[1,2,3]) under opset 11 is folded with the opset-13 reference implementation "
+                  f"({stats['known_C03-D3_in_stream']} runs of the opset-history stream)")
+
     for m, meta in models[:6]:
         run.sample({"tags": meta["tags"], "opset": meta["opset"], "nodes": len(m.graph.node)})
 
@@ -119,8 +149,8 @@ def main(run: core.Run) -> None:
     if sem_failures:
         sem_failures.sort(key=lambda t: len(t[0].graph.node))
         m, meta, api, opts, d = sem_failures[0]
-        run.violation({"model_b64": R.b64(m), "api": api, "opts": opts, "tags": meta["tags"], "others": len(sem_failures) - 1},
-                      f"{api}({opts}) changes what the model computes: {d}")
+        msg = d if "changes" in d or "override" in d else f"{api}({opts}) changes what the model computes: {d}"
+        run.violation({"model_b64": R.b64(m), "api": api, "opts": opts, "others": len(sem_failures) - 1, **meta}, msg)
     elif tie_problems:
         # tie broken: search the neighbourhood (same model, every API x option tuple) for a semantic failure
         found = None
